@@ -10,6 +10,9 @@ def run(tier, seed):
     # proved part (engine A): find_prime_root, one contract per branch, relative to the contracts of is_prime / prev_prime / next_prime / powmod
     tasks += [('vc.tasks', 'run_contract', ('contracts.finfields_fpr', a, 'contracts.finfields:' + nat, tier))
               for a, nat in (('fpr_tiny', 'fpr_l2'), ('fpr_n_le_2', 'fpr_n12'), ('fpr_n_gt_2', 'fpr_root'))]
+    # the callee contracts the proof is relative to, evaluated on the real helpers (same obligations as under C25): a defect in the primality test
+    # breaks this property through find_prime_root
+    tasks += [('lib.native', 'run_natives', ('contracts.gmpy', [n], tier)) for n in ('is_prime', 'next_prime', 'prev_prime', 'powmod')]
     obs = run_tasks(tasks)
     return finish('C26', tier, seed, obs, 'other', t0,
                   explanation='engine A proves find_prime_root for ALL l and n, branch by branch, relative to the contracts of gmpy2.is_prime / prev_prime / next_prime / powmod '
